@@ -208,6 +208,72 @@ let handle (toks: string list) : string =
                 | ROk (l, rest) -> go rest (String.concat "" (List.map (fun x -> if int_of_n x = 256 then "SS" else Printf.sprintf "%02x" (int_of_n x)) l) :: acc)
                 | _ -> "err")) in
       id ^ " " ^ go (hexarg hex) [] ^ "."
+  | "dasmtext" :: id :: proc :: mx :: org :: hex :: [] ->
+      (* the model's disassembly rendered like the implementation's (labels off); text layout is glue, decisions are the model's *)
+      let p = n_of_int (match proc with "6502" -> 0 | "65c02" -> 1 | "65802" -> 2 | _ -> 3) in
+      let m8 = mx.[0] = '1' and x8 = mx.[1] = '1' in
+      let str_of (l : n list) = String.init (List.length l) (fun i -> Char.chr (int_of_n (List.nth l i))) in
+      let hexu (l : n list) = String.concat "" (List.map (fun x -> Printf.sprintf "%02X" (int_of_n x)) l) in
+      let rec take k l = if k = 0 then [] else (match l with [] -> [] | x :: r -> x :: take (k-1) r) in
+      let rec drop k l = if k = 0 then l else (match l with [] -> [] | _ :: r -> drop (k-1) r) in
+      let hexval (v:int) (nb:int) = let b = Buffer.create 8 in
+        for i = nb - 1 downto 0 do Buffer.add_string b (Printf.sprintf "%02X" ((v lsr (8*i)) land 255)) done; "$" ^ Buffer.contents b in
+      let subst snippet repl = (* replace the first digit of the snippet *)
+        let b = Buffer.create 16 in let donef = ref false in
+        String.iter (fun c -> if (not !donef) && c >= '0' && c <= '9' then (Buffer.add_string b repl; donef := true) else Buffer.add_char b (Char.uppercase_ascii c)) snippet;
+        Buffer.contents b in
+      let lines = ref [] in
+      let emit s = lines := s :: !lines in
+      let rec go addr (bs : n list) =
+        match bs with
+        | [] -> ()
+        | code :: rest ->
+          (match dasm_one p m8 x8 (n_of_int addr) code rest (n_of_int (List.length rest)) with
+           | Some (DImplied mn) -> emit (String.uppercase_ascii (str_of (List.nth mnemonics (int_of_n mn)))); go (addr+1) rest
+           | Some (DMov (mn, a, b)) ->
+               emit (String.uppercase_ascii (str_of (List.nth mnemonics (int_of_n mn))) ^ " " ^ hexval (int_of_n a) 1 ^ "," ^ hexval (int_of_n b) 1); go (addr+3) (drop 2 rest)
+           | Some (DRelData nn) -> let k = int_of_n nn in emit ("HEX " ^ hexu (take k bs)); go (addr+k) (drop k bs)
+           | Some (DInstr (i, nn)) ->
+               let k = int_of_n nn in
+               let md = (match dasm_entry code with Some ((_, md), _) -> int_of_n md | None -> 0) in
+               let sn0 = str_of (List.nth mode_snippets md) in
+               let wide = md = int_of_n md_imm && ((m_sens i.i_mn && not m8) || (x_sens i.i_mn && not x8)) in
+               let sn = if wide then "#2" else sn0 in
+               let isrel = (sn0 = "1" || sn0 = "2") && (let nm = str_of (List.nth mnemonics (int_of_n i.i_mn)) in List.mem nm ["bcc";"bcs";"beq";"bmi";"bne";"bpl";"bra";"brl";"bvc";"bvs";"per"]) in
+               let opnd = if isrel then subst sn (hexval (int_of_n i.i_val) 2) else subst sn (hexval (int_of_n i.i_val) k) in
+               let suf = (match int_of_n i.i_suf with 1 -> ":" | 2 -> "L" | _ -> "") in
+               let pre = (match int_of_n i.i_pre with 1 -> ">" | _ -> "") in
+               emit (String.uppercase_ascii (str_of (List.nth mnemonics (int_of_n i.i_mn))) ^ suf ^ " " ^ pre ^ opnd);
+               go (addr+1+k) (drop k rest)
+           | None ->
+               let ((kind, len), extra) = data_run_ex bs in
+               let kind = int_of_n kind and len = int_of_n len and extra = int_of_n extra in
+               if len = 0 then (emit ("DFB " ^ hexval (int_of_n code) 1); go (addr+1) rest)
+               else begin
+                 (match kind with
+                  | 1 -> emit (Printf.sprintf "DS %d,$%s" len (hexu [code]))
+                  | 2 | 3 -> let w = if kind = 2 then 2 else 4 in let reps = len / w in
+                      if reps > 1 then emit (Printf.sprintf "LUP %d" reps);
+                      emit ("HEX " ^ hexu (take w bs));
+                      if reps > 1 then emit "--^"
+                  | _ -> let neg = kind = 5 in
+                      let chars = List.map (fun x -> Char.chr ((int_of_n x) land 127)) (take len bs) in
+                      let sv = String.init len (fun i -> List.nth chars i) in
+                      let d0 = if neg then "\"" else "'" in
+                      let delim = if String.length sv > 0 && String.sub sv 0 1 = d0 then (if neg then "&" else "/") else d0 in
+                      if extra = 1 then begin
+                        let la = int_of_n (List.nth bs len) in
+                        if la = 0 then emit ("ASC " ^ delim ^ sv ^ delim ^ ",00")
+                        else emit ("DCI " ^ delim ^ sv ^ String.make 1 (Char.chr (la land 127)) ^ delim)
+                      end else emit ("ASC " ^ delim ^ sv ^ delim));
+                 go (addr+len+extra) (drop (len+extra) bs)
+               end) in
+      go (int_of_string org) (hexarg hex);
+      id ^ " " ^ String.concat "|" (List.rev !lines)
+  | "asmir" :: id :: v8 :: proc :: m8 :: x8 :: pc :: mn :: suf :: pre :: rmode :: v :: [] ->
+      let ni s = n_of_int (int_of_string s) in
+      let i = { i_mn = ni mn; i_suf = ni suf; i_pre = ni pre; i_rmode = ni rmode; i_val = ni v } in
+      id ^ " " ^ show_outcome (asm_instr (v8 = "1") (ni proc) (m8 = "1") (x8 = "1") (ni pc) i)
   | "crc32" :: id :: hex :: [] -> id ^ " " ^ string_of_int (int_of_n (crc32 N0 (hexarg hex)))
   | "crc16" :: id :: seed :: hex :: [] -> id ^ " " ^ string_of_int (int_of_n (crc16 (n_of_int (int_of_string seed)) (hexarg hex)))
   | "imdtrk" :: id :: _kind :: secsize :: nsec :: rest ->
